@@ -56,7 +56,11 @@ def argmax(
     """
     a = numpoly.aspolynomial(a)
     options = numpoly.get_options()
+    # ties are ranked by position: rank the reversed array, such that the
+    # first of several equal maxima gets the highest rank, like in numpy.
     proxy = numpoly.sortable_proxy(
-        a, graded=options["sort_graded"], reverse=options["sort_reverse"]
-    )
+        a.ravel()[::-1],
+        graded=options["sort_graded"],
+        reverse=options["sort_reverse"],
+    )[::-1].reshape(a.shape)
     return numpy.argmax(proxy, axis=axis, out=out)
